@@ -672,7 +672,7 @@ class FileProcessTensor(BaseProcessTensor):
 
     def close(self):
         """Close the HDF5 file."""
-        if self._f is not None:
+        if self._f is not None and self._f: # (a closed h5py file is falsy)
             if self._write and self._f.attrs["writing"]:
                 self._f.attrs["writing"] = False
             self._f.close()
